@@ -103,3 +103,106 @@ Proof.
   intros G. apply (proj1 G_shape) in G as [B E]. split; [exact B|]. split; [exact E|].
   destruct E as (pre & t & -> & _). now destruct pre.
 Qed.
+
+(** ** Proper nesting: the brackets of a derivable token list form a well-nested word over the
+    three bracket kinds (every closer matches the most recent open bracket, none is left open). *)
+Fixpoint nested (ts : list tk) (stack : list tk) : bool :=
+  match ts with
+  | [] => match stack with [] => true | _ => false end
+  | t :: r =>
+      match t with
+      | TLParen | TLBracket | TLBrace => nested r (t :: stack)
+      | TRParen => match stack with TLParen :: s => nested r s | _ => false end
+      | TRBracket => match stack with TLBracket :: s => nested r s | _ => false end
+      | TRBrace => match stack with TLBrace :: s => nested r s | _ => false end
+      | _ => nested r stack
+      end
+  end.
+
+(** a piece is neutral when reading it leaves any stack as it was *)
+Definition neutral (ts : list tk) : Prop := forall rest stack, nested (ts ++ rest) stack = nested rest stack.
+
+Lemma neutral_nil : neutral []. Proof. intros r s. reflexivity. Qed.
+Lemma neutral_app a b : neutral a -> neutral b -> neutral (a ++ b).
+Proof. intros Ha Hb r s. rewrite <- app_assoc, Ha, Hb. reflexivity. Qed.
+Definition plain (t : tk) : bool :=
+  match t with TLParen | TLBracket | TLBrace | TRParen | TRBracket | TRBrace => false | _ => true end.
+Lemma neutral_plain t : plain t = true -> neutral [t].
+Proof. intros H r s. destruct t; try discriminate; reflexivity. Qed.
+Lemma neutral_cons t a : plain t = true -> neutral a -> neutral (t :: a).
+Proof. intros H Ha. apply (neutral_app [t] a); [now apply neutral_plain|exact Ha]. Qed.
+Lemma neutral_paren a : neutral a -> neutral (TLParen :: a ++ [TRParen]).
+Proof. intros Ha r s. cbn [app nested]. rewrite <- app_assoc, Ha. reflexivity. Qed.
+Lemma neutral_brack a : neutral a -> neutral (TLBracket :: a ++ [TRBracket]).
+Proof. intros Ha r s. cbn [app nested]. rewrite <- app_assoc, Ha. reflexivity. Qed.
+Lemma neutral_brace a : neutral a -> neutral (TLBrace :: a ++ [TRBrace]).
+Proof. intros Ha r s. cbn [app nested]. rewrite <- app_assoc, Ha. reflexivity. Qed.
+Lemma neutral_repeat t n : plain t = true -> neutral (repeat t n).
+Proof. intros H. induction n; cbn [repeat]; [apply neutral_nil|now apply neutral_cons]. Qed.
+
+Lemma Gids_neutral ids : Gids ids -> neutral ids.
+Proof. induction 1; [now apply neutral_plain|]. apply neutral_cons; [reflexivity|]. now apply neutral_cons. Qed.
+Lemma Gliteral_neutral l : Gliteral l -> neutral l.
+Proof. destruct 1; repeat (apply neutral_cons; [reflexivity|]); apply neutral_nil. Qed.
+
+Ltac nopts :=
+  repeat match goal with
+  | H : optq _ |- _ => destruct H as [-> | ->]
+  | H : optdot _ |- _ => destruct H as [-> | ->]
+  | H : optcomma _ |- _ => destruct H as [-> | ->]
+  | H : Gesc _ |- _ => destruct H
+  | H : Gids _ |- _ => apply Gids_neutral in H
+  | H : Gliteral _ |- _ => apply Gliteral_neutral in H
+  end.
+Lemma op_plain_rel op n : relop_name op = Some n -> plain op = true.
+Proof. destruct op; try discriminate; reflexivity. Qed.
+Lemma op_plain_mul op n : mulop_name op = Some n -> plain op = true.
+Proof. destruct op; try discriminate; reflexivity. Qed.
+Lemma op_plain_add op n : addop_name op = Some n -> plain op = true.
+Proof. destruct op; try discriminate; reflexivity. Qed.
+
+Lemma neutral_brack_q a : neutral a -> neutral (TLBracket :: TQuestion :: a ++ [TRBracket]).
+Proof. intros Ha. apply (neutral_brack (TQuestion :: a)). now apply neutral_cons. Qed.
+Lemma neutral_brack_c a : neutral a -> neutral (TLBracket :: a ++ [TComma; TRBracket]).
+Proof.
+  intros Ha. replace (a ++ [TComma; TRBracket]) with ((a ++ [TComma]) ++ [TRBracket]) by (now rewrite <- app_assoc).
+  apply neutral_brack. apply neutral_app; [exact Ha|now apply neutral_plain].
+Qed.
+Lemma neutral_brace_c a : neutral a -> neutral (TLBrace :: a ++ [TComma; TRBrace]).
+Proof.
+  intros Ha. replace (a ++ [TComma; TRBrace]) with ((a ++ [TComma]) ++ [TRBrace]) by (now rewrite <- app_assoc).
+  apply neutral_brace. apply neutral_app; [exact Ha|now apply neutral_plain].
+Qed.
+
+(** bring a goal [neutral (...)] into pieces *)
+Ltac neu :=
+  repeat first
+    [ assumption
+    | apply neutral_nil
+    | apply neutral_repeat; reflexivity
+    | match goal with |- neutral (TLBracket :: TQuestion :: ?a ++ [TRBracket]) => apply neutral_brack_q end
+    | match goal with |- neutral (TLBracket :: ?a ++ [TComma; TRBracket]) => apply neutral_brack_c end
+    | match goal with |- neutral (TLBrace :: ?a ++ [TComma; TRBrace]) => apply neutral_brace_c end
+    | match goal with |- neutral (TLParen :: ?a ++ [TRParen]) => apply neutral_paren end
+    | match goal with |- neutral (TLBracket :: ?a ++ [TRBracket]) => apply neutral_brack end
+    | match goal with |- neutral (TLBrace :: ?a ++ [TRBrace]) => apply neutral_brace end
+    | apply neutral_app
+    | apply neutral_cons; [first [reflexivity | eassumption]|] ].
+
+Lemma G_neutral :
+  (forall ts, Gexpr ts -> neutral ts) /\ (forall ts, Gor ts -> neutral ts) /\ (forall ts, Gand ts -> neutral ts) /\
+  (forall ts, Grel ts -> neutral ts) /\ (forall ts, Gcalc ts -> neutral ts) /\ (forall ts, Gunary ts -> neutral ts) /\
+  (forall ts, Gmember ts -> neutral ts) /\ (forall ts, Gprimary ts -> neutral ts) /\
+  (forall ts, GexprList ts -> neutral ts) /\ (forall ts, GlistInit ts -> neutral ts) /\
+  (forall ts, GmapInit ts -> neutral ts) /\ (forall ts, GfieldInit ts -> neutral ts).
+Proof.
+  apply G_mutind; intros; nopts;
+  try match goal with H : relop_name _ = Some _ |- _ => apply op_plain_rel in H end;
+  try match goal with H : mulop_name _ = Some _ |- _ => apply op_plain_mul in H end;
+  try match goal with H : addop_name _ = Some _ |- _ => apply op_plain_add in H end;
+  cbn [app]; try assumption.
+  all: try (neu; fail).
+Qed.
+
+Theorem derivable_nested ts : Gstart ts -> nested ts [] = true.
+Proof. intros G. apply (proj1 G_neutral) in G. specialize (G [] []). now rewrite app_nil_r in G. Qed.
